@@ -981,7 +981,7 @@ impl Prop for C34 {
         }
     }
     fn rule(&self) -> String {
-        "each case builds 1-4 registers (segments via from_slice or a raw well-formed encoding; sequences via from/extend/raw) from id lists that are contiguous / holey / alternating / sparse / outlier / shuffled, with bases at 0, at a 2^32 boundary and just below u64::MAX, then applies 2-8 of slice/delete/mask/with_new_high/get/position/extend/select/mask_to_offset_ranges/rechunk/select_row_ids/index with arguments drawn from the current plain lists (70% valid, rest out of range / absent / duplicated); the first 400 cases enumerate all subsets of 0..8 as id lists with every single-op. Non-trivial = at least one register holds >= 2 ids and one non-constructor op ran. Excluded (documented preconditions, results undefined): duplicate ids inside one sorted list, id u64::MAX, unsorted mask positions, spans >= 2^53.".into()
+        "each case builds 1-4 registers (segments via from_slice or a raw well-formed encoding; sequences via from/extend/raw) from id lists that are contiguous / holey / alternating / sparse / outlier / shuffled, with bases at 0, at a 2^32 boundary and just below u64::MAX, then applies 2-8 of slice/delete/mask/with_new_high/get/position/extend/select/mask_to_offset_ranges/rechunk/select_row_ids/index with arguments drawn from the current plain lists (70% valid, rest out of range / absent / duplicated); the first 512 cases enumerate all subsets of an 8-id universe (as one segment with every segment op, and split into two segments - the second raw-encoded - with every sequence op). Non-trivial = at least one register holds >= 2 ids and one non-constructor op ran. Excluded (documented preconditions, results undefined): duplicate ids inside one sorted list, id u64::MAX, unsorted mask positions, spans >= 2^53.".into()
     }
 
     fn gen_case(&mut self, rng: &mut Rng, tier: Tier, idx: usize) -> Vec<String> {
@@ -1038,6 +1038,81 @@ impl Prop for C34 {
             return out;
         }
 
+        // ---- index-focused cases: one pool of unique ids dealt to 2-4 fragments (interleaved / nested key ranges, so that
+        //      prep_index_chunks has to merge), each fragment in 1-3 segments, random deletion vectors
+        if rng.chance(15, 100) {
+            let n = rng.range(4, if tier == Tier::Quick { 28 } else { 60 }) as usize;
+            let base = match rng.below(4) { 0 => (1u64 << 32) - 10, 1 => u64::MAX - 200, _ => rng.below(30) };
+            let mut pool: Vec<u64> = vec![];
+            let mut x = base;
+            for _ in 0..n {
+                x += if rng.chance(3, 4) { 1 } else { rng.range(2, 6) };
+                pool.push(x);
+            }
+            let nf = rng.range(2, 4) as usize;
+            let mut frs: Vec<Vec<u64>> = vec![vec![]; nf];
+            // runs of consecutive pool ids go to the same fragment with some probability (nested / touching ranges)
+            let mut cur = rng.usize(nf);
+            for id in &pool {
+                if rng.chance(1, 3) {
+                    cur = rng.usize(nf);
+                }
+                frs[cur].push(*id);
+            }
+            let mut frags = vec![];
+            let mut fid = rng.below(3);
+            for (k, ids) in frs.iter_mut().enumerate() {
+                if rng.chance(1, 4) {
+                    for i in (1..ids.len()).rev() {
+                        let j = rng.usize(i + 1);
+                        ids.swap(i, j);
+                    }
+                }
+                let r = format!("q{k}");
+                let parts = rng.range(1, 3) as usize;
+                let mut cuts: Vec<usize> = (0..parts - 1).map(|_| rng.usize(ids.len() + 1)).collect();
+                cuts.sort();
+                cuts.push(ids.len());
+                let mut start = 0;
+                let mut first = true;
+                for c in cuts {
+                    let chunk = &ids[start..c];
+                    start = c;
+                    let tmp = if first { r.clone() } else { format!("t{k}") };
+                    if rng.chance(1, 3) {
+                        let d = gen_raw_seg(rng, chunk);
+                        out.push(format!("qraw {tmp} {}", show_segd(&d)));
+                    } else {
+                        out.push(format!("qids {tmp} {}", show_nat_list(chunk.iter().copied())));
+                    }
+                    if !first {
+                        out.push(format!("qext {r} {r} {tmp}"));
+                    }
+                    first = false;
+                }
+                let dv = if rng.chance(1, 2) { vec![] } else { sorted_subset(rng, ids.len(), 1, 4) };
+                frags.push(format!("{fid}/{r}/{}", show_nat_list(dv)));
+                fid += 1 + rng.below(3);
+            }
+            let mut probes = pool.clone();
+            probes.push(base);
+            probes.push(x + 1);
+            probes.push(x + 7);
+            out.push(format!("index {} {}", frags.join(";"), show_nat_list(probes)));
+            // and re-chunk the same fragments
+            let total = pool.len() as u64;
+            let mut sizes = vec![];
+            let mut left = total;
+            while left > 0 {
+                let s = rng.range(1, left.min(9));
+                sizes.push(s);
+                left -= s;
+            }
+            let regs: Vec<String> = (0..nf).map(|k| format!("q{k}")).collect();
+            out.push(format!("rechunk {} {} 0", regs.join(","), show_nat_list(sizes)));
+            return out;
+        }
+
         // ---- random structured cases
         let malformed = rng.chance(12, 100);
         let mut lists: HashMap<String, Vec<u64>> = HashMap::new();
@@ -1053,8 +1128,12 @@ impl Prop for C34 {
                 for x in ids.iter_mut() {
                     *x += next_base_shift;
                 }
-                next_base_shift += 1000;
+            } else {
+                for x in ids.iter_mut() {
+                    *x -= next_base_shift;
+                }
             }
+            next_base_shift += 3000;
             if rng.chance(2, 5) {
                 let r = format!("s{k}");
                 if rng.chance(1, 3) {
